@@ -30,6 +30,8 @@ def run_stats_values(run, prop, cases, binp, codes, what):
         if t is not None:
             terms.append(t)
             idx.append((c, r))
+        else:
+            run.nonfinite_stats = getattr(run, "nonfinite_stats", 0) + 1
     vcodes = coq_eval(prop, num.HEADER, terms, per_file_timeout=2400)
     hist = {}
     for (c, r), code, t in zip(idx, vcodes, terms):
@@ -52,7 +54,7 @@ def main(tier, seed, replay=None):
             k += 1
             N = M + P + rng.randint(2, 10)
             cases.append(statsrun.gen_stats_case(rng, M, P, N, scalar=("f32" if k % 6 == 0 else "f64"),
-                                                 weights=["none", "pos", "zeros"][k % 3], noise=[0.02, 0.1, 0.5][rep % 3],
+                                                 weights=["none", "pos", "zeros", "neg"][k % 4], noise=[0.02, 0.1, 0.5][rep % 3],
                                                  quant=(8 if k % 4 else None), probs=[0.683],
                                                  ctor=("new_parallel" if k % 5 == 0 else "new"), builder_made=(k % 4 == 2 and P <= M)))
     # almost noise-free data: variances far below machine epsilon in absolute terms (the covariance scales with the noise, its
@@ -74,7 +76,8 @@ def main(tier, seed, replay=None):
                 "(so a wrong column order, a missing weight or chi vs chi^2 changes the equation), symmetry, non-negative diagonal, variance "
                 "accessors exactly the diagonal segments split at M, correlation^2 * c_ii * c_jj = c_ij^2 with matching sign and |corr| <= 1"
                 % (COMBOS,),
-        "value_code_histogram": {str(k): v for k, v in hist.items()}, "fits_that_returned_err": nerr})
+        "value_code_histogram": {str(k): v for k, v in hist.items()}, "fits_that_returned_err": nerr,
+        "successful_fits_with_non_finite_statistics_not_compared": getattr(run, "nonfinite_stats", 0)})
     run.samples = [{"meta": c["meta"], "scalar": c["scalar"], "ctor": c["ctor"]} for c, r in idx[:3]]
     run.assumptions = ["rounding margin 64 u sqrt(N (M+P)) relative to ||H^T H|| ||Cov||"]
     return run.finish()
